@@ -931,7 +931,9 @@ func c18MakeOrig(name string, enc []byte) *c18Orig {
 
 func TestVerifC18(t *testing.T) {
 	c18EnsureTestBinaryName()
-	r := eng.Start("C18", "exploration", 90*time.Second, 14*time.Minute)
+	// soft budgets: the quick tier is sized by CPU cost (about 4 CPU-minutes, 15-30 s on 16 free cores); the budget is generous
+	// because the shared machine is often several times oversubscribed
+	r := eng.Start("C18", "exploration", 300*time.Second, 14*time.Minute)
 	r.Assume("reference predicate c18Ref transcribed from the statement (earliest-time mode: a key is acceptable if it can be valid at some time >= earliest)",
 		"the harness' own splitter (last blank line), base64 layer and raw OpenPGP signer (golang.org/x/crypto/openpgp/packet) define 'signed content' and 'decoded signature'",
 		"fixed 1024-bit RSA test keys; fixture prerequisites (accounts, account-keys, snap-declaration) satisfy every cross-consistency check so that only signature/validity/constraints decide")
